@@ -286,50 +286,68 @@ func runCase(c *core, cs caseSpec) (res caseResult) {
 	var obs []stepObs
 	cseq := 0
 
-	// quiesce after connection i was found closed by the server
+	// quiesce after connection i was found closed by the server. The rule of the property is evaluated for EVERY
+	// live session, with the harness's own knowledge of which connections are still open: the session that listed
+	// the departed connection must stop listing it, and a session none of whose listed connections is open any more
+	// must end unless it streams over UDP - also when the departed connection never became sc.session of anything
+	// (e.g. it was refused by a session pinned to another connection).
 	afterConnClosed := func(i int) {
 		if !c.waitFor(respWait, func() bool { return recs[i].closed }) {
 			fail("conn-close-hang", "connection %d: the peer saw EOF but OnConnClose was not called", i)
 			return
 		}
-		ss := recs[i].sc.Session()
-		if ss == nil {
-			return
-		}
-		k := indexOf(ss)
-		r := sessAt(k)
-		if r == nil || ended(r) {
-			return
-		}
-		// wait until the session has taken note of the departure
-		deadline := time.Now().Add(respWait)
-		for {
-			still := false
-			for _, sc := range ss.Conns() {
-				if sc == recs[i].sc {
-					still = true
+		isOpen := func(sc *gortsplib.ServerConn) bool {
+			c.mu.Lock()
+			defer c.mu.Unlock()
+			for _, rc := range recs {
+				if rc != nil && rc.sc == sc {
+					return !rc.closed
 				}
 			}
-			if !still || ended(r) {
-				break
-			}
-			if time.Now().After(deadline) {
-				fail("conn-not-detached", "session %d still lists closed connection %d", k, i)
-				return
-			}
-			runtime.Gosched()
-			time.Sleep(50 * time.Microsecond)
+			return false
 		}
-		if ended(r) {
-			return
-		}
-		// the property's rule, evaluated on the implementation's own state
-		st := ss.State()
-		streamingUDP := (st == gortsplib.ServerSessionStatePlay || st == gortsplib.ServerSessionStateRecord) &&
-			ss.Transport() != nil && ss.Transport().Protocol != gortsplib.ProtocolTCP
-		if len(ss.Conns()) == 0 && !streamingUDP {
-			if !waitEnded(r) {
-				fail("session-not-ended", "session %d lost its last connection in state %v (not streaming over UDP) and was not closed", k, st)
+		for k := 0; k < nSess(); k++ {
+			r := sessAt(k)
+			if r == nil || ended(r) {
+				continue
+			}
+			ss := r.ss
+			// wait until the session has taken note of the departure
+			deadline := time.Now().Add(respWait)
+			for {
+				still := false
+				for _, sc := range ss.Conns() {
+					if sc == recs[i].sc {
+						still = true
+					}
+				}
+				if !still || ended(r) {
+					break
+				}
+				if time.Now().After(deadline) {
+					fail("conn-not-detached", "session %d still lists closed connection %d", k, i)
+					break
+				}
+				runtime.Gosched()
+				time.Sleep(50 * time.Microsecond)
+			}
+			if ended(r) {
+				continue
+			}
+			// the property's rule
+			st := ss.State()
+			streamingUDP := (st == gortsplib.ServerSessionStatePlay || st == gortsplib.ServerSessionStateRecord) &&
+				ss.Transport() != nil && ss.Transport().Protocol != gortsplib.ProtocolTCP
+			open := 0
+			for _, sc := range ss.Conns() {
+				if isOpen(sc) {
+					open++
+				}
+			}
+			if open == 0 && !streamingUDP {
+				if !waitEnded(r) {
+					fail("session-not-ended", "session %d lost its last connection in state %v (not streaming over UDP) and was not closed (it still lists %d connections, none of them open)", k, st, len(ss.Conns()))
+				}
 			}
 		}
 	}
